@@ -60,6 +60,7 @@ class Handle:
         self.eff_output = copy.deepcopy(W.effective_output(world))
         self.read_digests = {}
         self.write_bytes = {}
+        self.write_cwds = set()
 
 
 class Runner(IOOpsMixin):
@@ -72,6 +73,8 @@ class Runner(IOOpsMixin):
         self.session = mode == "session"
         perm = scenario.get("listing_perm_seed") if self.session else None
         shadow = [c["name"] for c in scenario.get("clutter", [])] if self.session else []
+        if self.session:
+            shadow += [e["name"] for p in scenario["programs"].values() for o in p if o["op"] == "env.clutter" for e in o["entries"]]
         self.seams = S.Seams(self.root, perm, shadow)
         self.obs = {}
         self.verdicts = []
@@ -87,6 +90,7 @@ class Runner(IOOpsMixin):
         self.stdout = S.ThreadStdout(sys.stdout)
         self.trace_state = threading.local()
         self.file_texts = {}
+        self.cwd_rel = {c: w["cwd"] for c, w in scenario["worlds"].items()}
 
     # -- probes ---------------------------------------------------------------
     def probe(self, name, n=1):
@@ -242,6 +246,11 @@ class Runner(IOOpsMixin):
         return [f for f in self.sc.get("faults", []) if f["client"] == client and f["op"] == i and f["attempt"] == attempt]
 
     def _cwd_of(self, client):
+        """the directory the client's script is in NOW (env.chdir moves it)"""
+        return os.path.join(self.root, self.cwd_rel[client])
+
+    def _home_of(self, client):
+        """the directory the client's script started in: its own auxiliary files (geotherm, phonon data it writes) live there"""
         return os.path.join(self.root, self.sc["worlds"][client]["cwd"])
 
     def _run_op(self, client, i, op, tracer=None, in_segment=False):
@@ -386,7 +395,7 @@ class Runner(IOOpsMixin):
                     if other == client:
                         continue
                     ow = self.sc["worlds"][other]
-                    if ow["datadir"] != self.sc["worlds"][client]["cwd"] and k.startswith(ow["datadir"] + "/") and k in self.file_texts:
+                    if ow["datadir"] != self.cwd_rel[client] and k.startswith(ow["datadir"] + "/") and k in self.file_texts:
                         self.verdict("O-frame", "C14", client, i, f"input file {k} of client {other} was modified")
         rec.pop("_expected_files", None)
 
@@ -517,6 +526,53 @@ class Runner(IOOpsMixin):
         h.read_digests.pop(("calc", "config"), None)    # the client changed its own config: a later read legitimately differs
         return {}
 
+    def op_env_chdir(self, client, i, op):
+        """the client's script changes its working directory (os.chdir is the driver's: the next operation starts there)"""
+        new = op["to"]
+        os.makedirs(os.path.join(self.root, new), exist_ok=True)
+        if new != self.cwd_rel[client]:
+            self.probe("chdir")
+        self.cwd_rel[client] = new
+        return {}
+
+    def op_env_clutter(self, client, i, op):
+        """unrelated entries appear in the client's current working directory in the middle of the history
+        (session only: the solo reference keeps its directory clean)"""
+        if not self.session:
+            return {}
+        for c in op["entries"]:
+            d = os.path.join(self._cwd_of(client) if c.get("where", "cwd") == "cwd" else os.path.join(self.root, self.sc["worlds"][client]["datadir"]))
+            p = os.path.join(d, c["name"])
+            if os.path.lexists(p):
+                continue
+            made = []
+            if c["kind"] == "dir":
+                os.makedirs(p, exist_ok=True)
+                for sub in c.get("children", []):
+                    S.write_text(os.path.join(p, sub["name"]), sub.get("text", ""))
+                    made.append(os.path.join(p, sub["name"]))
+            else:
+                S.write_text(p, c.get("text", ""))
+                made.append(p)
+            self.driver_writes = getattr(self, "driver_writes", set()) | {os.path.relpath(m, self.root) for m in made}
+            self.probe("clutter_entries")
+            self.probe("clutter_mid_session")
+        return {}
+
+    def op_calc_drop(self, client, i, op):
+        """the client drops a calculator (del + gc): a later object may re-use its id()"""
+        import gc
+        h = self.handles[client].pop(op["h"], None)
+        if h is None:
+            raise LookupError("no-handle")
+        for relp, m in self.disk.items():
+            if m.get("handle_id") == id(h):
+                m["handle_id"] = None
+        del h
+        gc.collect()
+        self.probe("calc_dropped")
+        return {}
+
     # -- writing ------------------------------------------------------------------
     def op_calc_write(self, client, i, op):
         h = self._get_handle(client, op)
@@ -534,7 +590,7 @@ class Runner(IOOpsMixin):
             obj = h.calc.pressure_base if spec["base"] == "pressure_base" else h.calc.volume_base
             obj.write_variables(spec["list"])
         self._post_write(client, i, h, expected)
-        cwd = self.sc["worlds"][client]["cwd"]
+        cwd = self.cwd_rel[client]
         return {"_expected_files": [cwd + "/" + e["fname"] for e in expected], "n_expected": len(expected)}
 
     def op_cli_run(self, client, i, op):
@@ -549,7 +605,7 @@ class Runner(IOOpsMixin):
         main(args=args, standalone_mode=False)
         import logging
         logging.getLogger("cij").handlers[:] = []
-        cwd = w["cwd"]
+        cwd = self.cwd_rel[client]
         res = {}
         if "O-disk" in self.oracles or "O-frame" in self.oracles:
             import cij.core.calculator as cc
@@ -611,7 +667,10 @@ class Runner(IOOpsMixin):
         return numpy.asarray(v)
 
     def _post_write(self, client, i, h, expected):
-        cwd = self.sc["worlds"][client]["cwd"]
+        cwd = self.cwd_rel[client]
+        h.write_cwds.add(cwd)
+        if len(h.write_cwds) > 1:
+            self.probe("same_calculator_written_from_two_cwds")
         q = W.effective_qha(h.world)
         for e in expected:
             relp = cwd + "/" + e["fname"]
@@ -842,7 +901,7 @@ class Runner(IOOpsMixin):
 
 
 READ_ONLY_OPS = {"calc.read", "calc.new", "cli.extract", "cli.geotherm", "io.read_energy", "io.read_elast",
-                 "fill.call", "cli.fill", "cli.refill", "cli.static", "env.mutate_config"}
+                 "fill.call", "cli.fill", "cli.refill", "cli.static", "env.mutate_config", "env.chdir", "env.clutter", "calc.drop"}
 
 
 # ---------------------------------------------------------------------------
